@@ -68,6 +68,7 @@ def configs(tier):
         {'names': 'ks', 'sparse': True, 'optional': {'whitening_mat': 'no'}, 'sym': ['spikes', 'templates']},
         {'names': 'ks', 'allow_unsorted': True, 'optional': {'amplitudes': 'no'}, 'sym': ['spikes']},
         {'names': 'ks', 'id_dtype': 'uint16', 'sym': ['ids', 'channels']},
+        {'names': 'ks', 'sym': ['spikes'], 'positions': [[0.0, 0.0], [0.4, 0.0], [0.0, 0.5]]},   # mm-scale geometry
         {'names': 'alf', 'optional': {'spike_samples': 'sym', 'amplitudes': 'sym'}, 'wm': 'diag',
          'sym': ['spikes', 'templates']},
         {'names': 'alf', 'colvec': True, 'optional': {'spike_samples': 'no', 'spike_clusters': 'sym'},
@@ -312,6 +313,9 @@ def replay(case):
                 return 'amplitudes should be None'
             if [int(v) for v in m.channel_mapping] != case['cm']:
                 return 'channel_mapping'
+            if not np.allclose(np.asarray(m.channel_positions, dtype=float), rd.pos):
+                return 'channel_positions %s differ from the file contents %s' % (
+                    np.asarray(m.channel_positions).tolist(), rd.pos.tolist())
             if wsc != case['st']:
                 if m.sparse_clusters is m.sparse_templates:
                     return 'curated dataset (clusters %s, templates %s) treated as uncurated' % (wsc, case['st'])
